@@ -7,6 +7,8 @@ mod cmd_binary;
 mod cmd_jax;
 mod cmd_lookup;
 mod cmd_record;
+#[cfg(hpo_verif)]
+mod cmd_algo;
 mod enc;
 mod paths;
 mod project;
@@ -31,6 +33,8 @@ fn main() {
         "replay-jax" => cmd_jax::run(&args),
         "replay-lookup" => cmd_lookup::run(&args),
         "record" => cmd_record::run(&args),
+        #[cfg(hpo_verif)]
+        "record-algo" => cmd_algo::run(&args),
         "debug-mismatch" => cmd_binary::debug_mismatch(&args),
         "replay-one" => {
             let text = std::fs::read_to_string(args.req("file")).unwrap_or_else(|e| {
